@@ -5,7 +5,7 @@ import concurrent.futures
 
 from aiohttp import web
 
-from klongpy.core import KGCall, KGFn, KGFnWrapper, KGLambda
+from klongpy.core import KGCall, KGFn, KGFnWrapper, KGLambda, KlongException
 
 
 class WebServerHandle:
@@ -47,6 +47,10 @@ async def _call_on_klongloop(klongloop, fn, parameters):
     def run():
         try:
             result = fn(parameters)
+        except SystemExit as e:
+            # a handler that leaves its evaluation through an exit (".x(0)") is a failed handler: left to propagate
+            # it ends the klong loop's thread, this request and every later one would never be answered
+            ioloop.call_soon_threadsafe(settle, future.set_exception, KlongException(f"exit requested: {e.code}"))
         except Exception as e:
             ioloop.call_soon_threadsafe(settle, future.set_exception, e)
         else:
